@@ -230,6 +230,12 @@ func (w *Worker) runPath(s *State) {
 		}
 		if len(s.threads) > 1 {
 			f := s.frames[len(s.frames)-1]
+			if s.cur == 0 && isSettle(w, s, f) && w.othersRunnable(s) {
+				if !w.schedule(s) {
+					bail("pruned by sleep set")
+				}
+				continue
+			}
 			if isJoin(w, s, f) && !s.othersDone() {
 				if !w.schedule(s) {
 					bail("pruned by sleep set")
